@@ -8,12 +8,17 @@
    the set refers to, each object once ([garbage] guard of OCollect); (R2) an allocation never
    returns the address of a live object ([addr_free] guard); (R3) a destructor does not resurrect
    or touch the objects being freed (OCollect is atomic).
+   R3 is weakened by the re-entrancy theorems at the end: a destructor MAY release, or remove the
+   destructor of, the wrapper that is being finalised.
+   The reference edges, what finalisation clears and calls, and the release dispatch of the model are
+   defined from tables regenerated from the C source (C21/Gen.v); C21_model_edges_are_tp_traverse ..
+   C21_release_dispatch_is_cdata_exit spell out what the tables must say for the theorems to hold.
    Operations whose guard fails (operand not held by a variable, address in use) leave the state
    unchanged; [get s i] for an index never created is a default dead object with no destructor,
    for which the statements below hold trivially. *)
 From Coq Require Import Arith List Bool.
 Import ListNotations.
-From Cffi Require Import C21.Gen C21.Model C21.Proofs.
+From Cffi Require Import C21.Gen C21.Model C21.Proofs C21.Proofs2.
 
 (* a destructor (ffi.gc callback or allocator free) runs at most once per wrapper *)
 Theorem C21_destructor_at_most_once : forall ops i, calls (get (run ops) i) <= 1.
@@ -188,6 +193,110 @@ Theorem C21_collect_frees_members : forall ops G i,
 Proof. exact collect_frees_members. Qed.
 Print Assumptions C21_collect_frees_members.
 
+(* ---- the regenerated tables.  [refs_of], [run_dtor], [cancel] and the ORelease case of [step] are
+   DEFINED from Gen.gen_traverse / gen_structptr_owns / gen_finalize_cleared / gen_gcp_finalize_calls /
+   gen_gcnone_clears / gen_release_case / gen_exit_table (extracted from the C source on every run).
+   The next five statements say what those definitions amount to for the current source; they are
+   proved by computation on the tables, so an edited Py_VISIT list, a cdatagcp_finalize that clears
+   after the call or not at all, a changed case of explicit_release_case or cdata_exit breaks them
+   (and with them every theorem above, all of which are proved about the same definitions). *)
+Theorem C21_model_edges_are_tp_traverse : forall o,
+  refs_of o =
+  if alive o then
+    match k o with
+    | KOwn | KRaw => []
+    | KStructPtr s => [s]
+    | KGcp orig dtor => opt_list orig ++ match dtor with Some y => opt_list y | None => [] end
+    | KFromBuf src view => if view then [src] else []
+    | KHandle x => [x]
+    | KPy refs _ => refs
+    end
+  else [].
+Proof. exact refs_of_edges. Qed.
+Print Assumptions C21_model_edges_are_tp_traverse.
+
+Theorem C21_finalize_clears_both_calls_once : forall o,
+  run_dtor o =
+  match k o with
+  | KGcp _ (Some _) =>
+      mkobj (KGcp None None) (alive o) (roots o) (addr o) (S (calls o)) (had o) (cancelled o)
+            (released o) (horig o)
+  | KGcp _ None => with_k o (KGcp None None)
+  | _ => o
+  end.
+Proof. exact run_dtor_effect. Qed.
+Print Assumptions C21_finalize_clears_both_calls_once.
+
+Theorem C21_gc_none_clears_destructor_only : forall o,
+  cancel o =
+  match k o with
+  | KGcp orig (Some _) =>
+      mkobj (KGcp orig None) (alive o) (roots o) (addr o) (calls o) (had o) true (released o) (horig o)
+  | _ => o
+  end.
+Proof. exact cancel_effect. Qed.
+Print Assumptions C21_gc_none_clears_destructor_only.
+
+Theorem C21_finalize_order_facts :
+  gen_finalize_clears_first = true /\ fin_clears FDestructor = true /\ fin_clears FOrigobj = true /\
+  gen_gcp_finalize_calls = 1 /\ gen_dealloc_finalizes = true /\ gen_structptr_owns = true.
+Proof. exact finalize_order. Qed.
+Print Assumptions C21_finalize_order_facts.
+
+Theorem C21_release_dispatch_is_cdata_exit : forall s i,
+  step s (ORelease i) =
+  if usable s i then
+    match k (get s i) with
+    | KStructPtr st => if is_gcp (get s st) then finalize_at s st else s
+    | KFromBuf _ _ => let s1 := release_view s i in set_obj s1 i (mark_released (get s1 i))
+    | KGcp _ _ => finalize_at s i
+    | _ => s
+    end
+  else s.
+Proof. exact release_dispatch. Qed.
+Print Assumptions C21_release_dispatch_is_cdata_exit.
+
+(* ---- results of the operations ([stepr s o = (step s o, out s o)]).  ffi.release(x) / with x: on an
+   object the program holds raises ValueError exactly for a handle and for the struct object p[0]
+   behind ffi.new("struct *") (explicit_release_case falls through), TypeError exactly for a
+   non-cdata (b_release), and whenever it does not succeed the state is unchanged.
+   ffi.gc(x, None) raises TypeError exactly when x is not an ffi.gc()/allocator wrapper, and then
+   changes no object. *)
+Theorem C21_release_error_iff_kind : forall ops i,
+  let s := run ops in
+  usable s i = true ->
+  (out s (ORelease i) = RValueError <->
+     (exists y, k (get s i) = KHandle y) \/ (k (get s i) = KOwn /\ own_is_struct s i = true)) /\
+  (out s (ORelease i) = RTypeError <-> is_py (get s i) = true) /\
+  (out s (ORelease i) = ROk \/ step s (ORelease i) = s).
+Proof. exact release_result_run. Qed.
+Print Assumptions C21_release_error_iff_kind.
+
+Theorem C21_gcnone_error_iff_kind : forall s w,
+  usable s w = true ->
+  (out s (OGcNone w) = RTypeError <-> is_gcp (get s w) = false) /\
+  (out s (OGcNone w) = ROk <-> is_gcp (get s w) = true) /\
+  (out s (OGcNone w) = ROk \/
+   (next (step s (OGcNone w)) = next s /\ forall j, get (step s (OGcNone w)) j = get s j)).
+Proof. exact gcnone_result. Qed.
+Print Assumptions C21_gcnone_error_iff_kind.
+
+(* ---- re-entrant destructors (weakens R3).  [OReleaseRe i r]: ffi.release(i) / with i: whose
+   destructor, while it runs, calls ffi.release(w) (r = RReleaseSelf) or ffi.gc(w, None)
+   (r = RGcNoneSelf) on the wrapper w being finalised.  [finalize_re] keeps the statement order of
+   cdatagcp_finalize explicit (clear, call with the nested action inside, or call then clear,
+   according to Gen.gen_finalize_clears_first).  Because the source clears first, the nested
+   cdatagcp_finalize finds no destructor: every history with re-entrant releases reaches the same
+   state as the history with plain releases, hence ALL theorems above hold for [run2] too; "at most
+   once" is restated. *)
+Theorem C21_reentrant_release_same : forall ops, run2 ops = run (map erase ops).
+Proof. exact run2_erase. Qed.
+Print Assumptions C21_reentrant_release_same.
+
+Theorem C21_at_most_once_reentrant : forall ops i, calls (get (run2 ops) i) <= 1.
+Proof. exact at_most_once_reentrant. Qed.
+Print Assumptions C21_at_most_once_reentrant.
+
 (* non-vacuity: a wrapper in a reference cycle with its own destructor's closure; a release
    followed by collection; a cancelled destructor; an allocator struct pointer released while
    aliased; two from_buffer views *)
@@ -215,4 +324,19 @@ Example C21_example_origobj_cycle :
   let s := run [ONewPy 1; ONewHandle 0 2; OGc 1 3 None; OGcNone 2; OSetRef 0 2; ODrop 1; ODrop 2; ODrop 0;
                 OCollectAuto] in
   observe s = [(false, 0, false); (false, 0, false); (false, 0, false)].
+Proof. vm_compute. reflexivity. Qed.
+
+(* the struct object p[0] and a handle cannot be released (ValueError, nothing changes), a Python
+   object gives TypeError; the array, the pointer and the wrapper can *)
+Example C21_example_release_results :
+  outs init [ONewStruct 1 2; OAlias 1; ORelease 0; ORelease 1; ONewPy 3; ONewHandle 2 4; ORelease 3;
+             ORelease 2; OGcNone 1; ONew 5; ORelease 4; OGc 4 6 None; OGcNone 5; ORelease 5; ORelease 9]
+  = [0; 0; 1; 0; 0; 0; 1; 2; 2; 0; 0; 0; 0; 0; 0].
+Proof. vm_compute. reflexivity. Qed.
+
+(* a re-entrant release: the destructor of wrapper 1 releases wrapper 1 while it runs; called once *)
+Example C21_example_reentrant :
+  let s := run2 [OBase (ONew 1); OBase (OGc 0 2 None); OReleaseRe 1 RReleaseSelf; OReleaseRe 1 RGcNoneSelf;
+                 OBase (ODrop 1); OBase OCollectAuto] in
+  observe s = [(true, 0, false); (false, 1, false)].
 Proof. vm_compute. reflexivity. Qed.
